@@ -271,7 +271,7 @@ def gen_formula(g, dv, t, limit_ref=None, kinds=None):
   kinds = list(kinds or g.cfg.get("formula_kinds",
                ["arith", "arith", "str", "ref", "ref", "reflist", "lookup", "lookup", "lookupone",
                 "count", "all", "twopath", "twopath", "contains", "find", "prevnext", "lazy",
-                "swallow", "sumlookup"]))
+                "swallow"]))      # ("sumlookup" only where a profile asks for it: finding F-p)
   rng.shuffle(kinds)
   own = _earlier(dv, t, limit_ref)
   for kind in kinds:
